@@ -23,6 +23,7 @@ class ScheduledObserver(Observer[_T_in]):
         self.has_faulted = False
         self.queue: list[typing.Action] = []
         self.disposable = SerialDisposable()
+        self._epoch = 0
 
         # Note to self: list append is thread safe
         # http://effbot.org/pyfaq/what-kinds-of-global-value-mutation-are-thread-safe.htm
@@ -47,14 +48,23 @@ class ScheduledObserver(Observer[_T_in]):
 
     def ensure_active(self) -> None:
         is_owner = False
+        epoch = 0
 
         with self.lock:
             if not self.has_faulted and self.queue:
                 is_owner = not self.is_acquired
                 self.is_acquired = True
+                if is_owner:
+                    self._epoch += 1
+                    epoch = self._epoch
 
         if is_owner:
-            self.disposable.disposable = self.scheduler.schedule(self.run)
+            scheduled = self.scheduler.schedule(self.run)
+            # Another thread may have become the owner of a later drain cycle
+            # in the meantime; a stale assignment would cancel its pending run.
+            with self.lock:
+                if epoch == self._epoch:
+                    self.disposable.disposable = scheduled
 
     def run(self, scheduler: abc.SchedulerBase, state: Any) -> None:
         parent = self
